@@ -5,6 +5,7 @@ package main
 import (
 	"encoding/json"
 	"strings"
+	"unicode/utf8"
 
 	pipeline "github.com/buildkite/go-pipeline"
 
@@ -95,7 +96,8 @@ func runC17(c *ctx) error {
 		// the marshalled plugin is keyed by exactly this canonical form (both encoders)
 		if i := c.res.OracleChecks; i%7 == 0 {
 			pl := &pipeline.Plugin{Source: s}
-			if jb, err := json.Marshal(pl); err == nil {
+			// (encoding/json replaces invalid UTF-8 — reachable through % escapes — by U+FFFD: compare valid text only)
+			if jb, err := json.Marshal(pl); err == nil && utf8.ValidString(got) {
 				var back map[string]any
 				if json.Unmarshal(jb, &back) == nil && len(back) == 1 {
 					for k := range back {
